@@ -22,7 +22,8 @@ EXPLANATION = ("direct exploration of the implementation: every trace is an "
                "validated items")
 BOUNDS = {"quick": "lengths 0..6 distinct items (0..4 for the List-trait owner mode), dup/perm patterns <=4, "
                    "indices/slice bounds -(n+3)..n+3, steps None,+-1,+-2,+-3,"
-                   "+-(n+2), replacement length 0..4, depth-2 on length<=2",
+                   "+-(n+2), replacement length 0..4, depth-2 on length<=2; six owner / validator modes incl. a list behind a Property "
+                   "(lengths 0..3) and a strict Union(None, List) owner (0..3); __index__-only keys; sorts that fail half-way",
           "thorough": "lengths 0..9, dup/perm patterns <=4, depth-2 on "
                       "length<=3"}
 ASSUMPTIONS = ["list operations are parametric in pairwise distinct items, so "
